@@ -353,8 +353,15 @@ def packet_contract_rules(ctx, rule='R4', size=True):
     pkc = m.cls(ST, 'CRTPPacket')
     init = pkc.method('__init__')
     # 1. header decoding is unconditional: one store each, directly in the body of __init__
-    top = [norm(s.targets[0]) for s in init.node.body if isinstance(s, ast.Assign)]
-    every = [norm(s.targets[0]) for s in walk_own(init.node) if isinstance(s, ast.Assign)]
+    def stored(stmts):
+        out = []
+        for s_ in stmts:
+            if isinstance(s_, ast.Assign):
+                for t_ in s_.targets:
+                    out += [norm(e_) for e_ in t_.elts] if isinstance(t_, (ast.Tuple, ast.List)) else [norm(t_)]      # (a, b = .. stores a and b)
+        return out
+    top = stored(init.node.body)
+    every = stored(walk_own(init.node))
     for fld in ('self._port', 'self._channel', 'self.header'):
         ctx.inst(rule, init, 'decoded-for-every-header:' + fld.split('.')[-1], top.count(fld) == 1 and every.count(fld) == 1,
                  '%s is stored once, unconditionally (a special case for one header byte changes which callbacks match it); stores: %d, unconditional: %d' %
